@@ -765,6 +765,7 @@ def correspondence(ctx):
         lines.append('global ' + ' '.join(tok))
 
     rep = iter(C.lean_driver('C19', lines))
+    cf2_lines, cf2_jobs = [], []
 
     # ---------------- evaluate
     for job in jobs:
@@ -817,6 +818,18 @@ def correspondence(ctx):
                     ctx.hist['trace:checked/refraction-against-the-normal'] += 1
                 for b in bad[:1]:
                     ctx.pred_fail('trace', case, b)
+                # every surface of the trace: the hit point the code found (local frame) against the PROVED closed-form intersection
+                # of the incident ray with the plane / conic / parent conic -- the SAME point, not just some point of the surface
+                for j in range(k):
+                    if float(np.linalg.norm(ph[j + 1] - ph[j])) > 1e4 or bad:
+                        ctx.hist['trace_closed_form:skipped-far-origin'] += 1
+                        continue
+                    Rm_ = np.eye(3) if mats[j] is None else np.asarray(mats[j], dtype=float)
+                    pv_ = _pvec(specs[j]['P'])
+                    cf = _closed_form_line(specs[j]['shape'], Rm_ @ (ph[j] - pv_), Rm_ @ sh[j])
+                    if cf is not None:
+                        cf2_lines.append(cf[0])
+                        cf2_jobs.append((case, j, specs[j]['shape'][0], Rm_ @ (ph[j + 1] - pv_), cf[1], tags[i]))
                 allow = 0.0
                 for j in range(k):
                     # far origins: see the tolerance rule at the top of this file; the allowance of an earlier leg carries on
@@ -938,6 +951,17 @@ def correspondence(ctx):
             if not _cmp(Xb[0], X, 20.0) or not _cmp(Sb[0], S) or abs(np.linalg.norm(Sl[0]) - 1) > TOL \
                     or abs(np.linalg.norm(Xl[0]) - np.linalg.norm(X - P0)) > TOL * 20:
                 ctx.pred_fail('frames', case, 'local/global frame change is not an exact rigid motion')
+
+    if cf2_lines:
+        for (case, j, shname, X, shift, tag), reply in zip(cf2_jobs, C.lean_driver('C19', cf2_lines)):
+            tok = reply.split()
+            hit = np.array([C.w2f(v) for v in tok[1:4]]) - shift if len(tok) == 4 else np.full(3, np.nan)
+            ctx.case('trace_closed_form', {**case, 'surface': j}, nontrivial=shname != 'plane', tag=f'{shname}/surface{min(j, 2)}/{tag}')
+            if not np.isfinite(hit).all():
+                ctx.hist['trace_closed_form:model-nan'] += 1
+                continue
+            if np.abs(X - hit).max() > 1e-9 * max(1.0, float(np.abs(hit).max())):
+                ctx.disagree('trace_closed_form', {**case, 'surface': j}, {'local_hit': X.tolist()}, {'closed_form': hit.tolist()})
 
     _qtype_stream(ctx)
     _intersect_stream(ctx)
